@@ -1663,6 +1663,23 @@ namespace jsoncons {
             return *result;
         }
 
+        // a string tagged as a number whose text really is a number (compare must not throw on other text)
+        bool is_numeric_string() const noexcept
+        {
+            if (!(is_string_storage(storage_kind()) && is_number_tag(tag())))
+            {
+                return false;
+            }
+            JSONCONS_TRY
+            {
+                return static_cast<bool>(try_as_double());
+            }
+            JSONCONS_CATCH(...)
+            {
+                return false;
+            }
+        }
+
         // three-way comparison of doubles; subtracting would give NaN for two equal infinities
         static int compare_double(double lhs, double rhs) noexcept
         {
@@ -1750,7 +1767,7 @@ namespace jsoncons {
                         case json_storage_kind::json_ref:
                             return compare(rhs.cast<json_ref_storage>().value());
                         default:
-                            if (is_string_storage(rhs.storage_kind()) && is_number_tag(rhs.tag()))
+                            if (rhs.is_numeric_string())
                             {
                                 return -rhs.compare(*this);
                             }
@@ -1781,7 +1798,7 @@ namespace jsoncons {
                         case json_storage_kind::json_ref:
                             return compare(rhs.cast<json_ref_storage>().value());
                         default:
-                            if (is_string_storage(rhs.storage_kind()) && is_number_tag(rhs.tag()))
+                            if (rhs.is_numeric_string())
                             {
                                 return -rhs.compare(*this);
                             }
@@ -1808,7 +1825,7 @@ namespace jsoncons {
                         case json_storage_kind::json_ref:
                             return compare(rhs.cast<json_ref_storage>().value());
                         default:
-                            if (is_string_storage(rhs.storage_kind()) && is_number_tag(rhs.tag()))
+                            if (rhs.is_numeric_string())
                             {
                                 double val1 = as_double();
                                 double val2 = rhs.as_double();
@@ -1846,7 +1863,7 @@ namespace jsoncons {
                     break;
                 case json_storage_kind::short_str:
                 case json_storage_kind::long_str:
-                    if (is_number_tag(tag()))
+                    if (is_numeric_string())
                     {
                         double val1 = as_double(); 
                         switch (rhs.storage_kind())
@@ -1868,7 +1885,7 @@ namespace jsoncons {
                             case json_storage_kind::json_ref:
                                 return compare(rhs.cast<json_ref_storage>().value());
                             default:
-                                if (is_string_storage(rhs.storage_kind()) && is_number_tag(rhs.tag()))
+                                if (rhs.is_numeric_string())
                                 {
                                     double val2 = rhs.as_double();
                                     return compare_double(val1, val2);
